@@ -192,8 +192,12 @@ class Shape(object):
 
     # -- atoms ------------------------------------------------------------------
     def atoms(self):
+        return self.atoms_of(own_nodes(self.f.node))
+
+    def atoms_of(self, nodes):
+        """Atoms contributed by the given AST nodes only."""
         out = set()
-        for n in own_nodes(self.f.node):
+        for n in nodes:
             if isinstance(n, ast.Compare) and len(n.ops) == 1:
                 a, b = n.left, n.comparators[0]
                 ca, cb = self.column(a), self.column(b)
